@@ -32,6 +32,10 @@ for q in _q_variants:
         _c04_thorough.append(run("queues", "%s_%s" % (q, r), c=2, opt={"T": 3, "m": 1, "prefill": 1}, weight=1.0))
     # deeper preemption bound on the cheapest reclaimer
     _c04_thorough.append(run("queues", "%s_lfrc" % q, c=3, opt={"prefill": 0}, weight=6.0))
+    # one popping entry point throughout (the default alternates try_pop(value_type&) and pop() -> std::optional)
+    if q != "ms":
+        _c04_thorough.append(run("queues", "%s_hp" % q, c=2, opt={"api": 0}, weight=1.0))
+        _c04_thorough.append(run("queues", "%s_hp" % q, c=2, opt={"api": 1}, weight=1.0))
     # immediate address reuse (ABA hunting) with pointer-, era- and count-based protection
     for r in ["hp", "he", "lfrc", "ebr"]:
         _c04_thorough.append(run("queues", "%s_%s" % (q, r), c=2, heap="reuse", weight=1.0))
@@ -39,7 +43,7 @@ PLAN["C04"] = {
     "quick": _c04_quick,
     "thorough": _c04_thorough,
     "budget_s": {"quick": 170, "thorough": 1200},
-    "rule": "programs: T threads x m operations over {push, try_pop} (all assignments, thread-symmetric duplicates and pop-free programs pruned), "
+    "rule": "programs: T threads x m operations over {push, try_pop / pop() alternating with the position in the program} (all assignments, thread-symmetric duplicates and pop-free programs pruned), "
             "0/1 prefilled elements, final drain by T0; node sizes entries_per_node 1|2, pop_retries 0|1; oracle: Wing-Gong linearizability against a "
             "sequential FIFO (std::deque-like) + heap lifetime shadow + happens-before race detector + solo-progress monitor",
     "assumptions": ["values are small distinct integers (raw-pointer queues carry them encoded in never dereferenced pointers)"],
@@ -169,8 +173,12 @@ PLAN["C05"] = {
               run("bounded", "nikolaev", c=2, opt={"cap": 1}), run("bounded", "nikolaev", c=2, opt={"cap": 2}),
               run("bounded", "nikolaev", c=2, opt={"cap": 3, "wrap": 9}), run("bounded", "nikolaev_p0", c=2, opt={"cap": 2}),
               run("bounded", "nikolaev", c=2, opt={"cap": 2, "fixed": 1, "prefill": 0}), run("bounded", "nikolaev_p0", c=2, opt={"cap": 2, "fixed": 1, "prefill": 0}),
-              run("bounded", "vyukov", c=2, opt={"cap": 2, "fixed": 1, "prefill": 0})],
-    "thorough": [run("bounded", "vyukov", c=3, opt={"cap": 2}, weight=6), run("bounded", "vyukov", c=2, opt={"cap": 4, "wrap": 9}),
+              run("bounded", "vyukov", c=2, opt={"cap": 2, "fixed": 1, "prefill": 0}),
+              # policy-dispatched entry points try_push / try_pop / pop and pop_strong / pop_weak, default_to_weak false and true
+              run("bounded", "vyukov_api", c=2, opt={"cap": 2}, weight=0.7), run("bounded", "vyukov_dw", c=1, opt={"cap": 2}, weight=0.4)],
+    "thorough": [run("bounded", "vyukov_api", c=2, opt={"cap": 2}), run("bounded", "vyukov_dw", c=2, opt={"cap": 2}), run("bounded", "vyukov_api", c=2, opt={"cap": 4, "wrap": 5}),
+                 run("bounded", "vyukov_dw", c=2, opt={"cap": 2, "T": 3, "m": 1, "prefill": 1}),
+                 run("bounded", "vyukov", c=3, opt={"cap": 2}, weight=6), run("bounded", "vyukov", c=2, opt={"cap": 4, "wrap": 9}),
                  run("bounded", "vyukov", c=2, opt={"cap": 2, "T": 3, "m": 1, "prefill": 1}),
                  run("bounded", "vyukov", c=1, opt={"cap": 2, "T": 2, "m": 3, "prefill": 1}, weight=3),
                  run("bounded", "nikolaev", c=3, opt={"cap": 1}, weight=3), run("bounded", "nikolaev", c=3, opt={"cap": 2}, weight=6),
@@ -180,7 +188,8 @@ PLAN["C05"] = {
                  run("bounded", "nikolaev", c=2, opt={"cap": 2, "T": 3, "m": 1}), run("bounded", "nikolaev", c=2, opt={"cap": 2, "T": 2, "m": 3}, weight=4),
                  run("bounded", "vyukov", c=2, opt={"cap": 2}, mode="wmm", d=1, weight=4), run("bounded", "nikolaev", c=2, opt={"cap": 2}, mode="wmm", d=1, weight=4)],
     "budget_s": {"quick": 120, "thorough": 900},
-    "rule": "programs: T threads x m operations over {try_push_strong, try_pop_strong, try_push_weak, try_pop_weak} (vyukov) / {try_push, try_pop} (nikolaev), all "
+    "rule": "programs: T threads x m operations over {try_push_strong, try_pop_strong, try_push_weak, try_pop_weak} (vyukov; the runs vyukov_api / vyukov_dw go through the "
+            "policy-dispatched try_push / try_pop / pop and through pop_strong / pop_weak with default_to_weak false / true) / {try_push, try_pop alternating with pop()} (nikolaev), all "
             "assignments, prefill 0..capacity (enumerated), optional wrap-around prefix (push/pop pairs advancing the ring indexes), an adversarial fixed family "
             "(one pusher | one thread pushing four times, lapping the index ring | one popper), at quiescence pushes until the queue reports full (capacity "
             "conservation) and a final drain; oracle: Wing-Gong "
